@@ -35,6 +35,7 @@ Rewrite rules (closed list, every application logged with source line):
   N2  leading `if C { continue; }` in a `for` body -> `if !(C) { rest }`
   N3  `if let P = E && C {A} else {B}` -> `match E { P if C => {A} _ => {B} }`
   N4  `E.map_or(LIT, |p| B)` -> `(match E { Some(p) => B, None => LIT })` (definition of Option::map_or)
+  N5  `E.map(|p| B).unwrap_or(LIT)` -> `(match E { Some(p) => B, None => LIT })`
   A   arm focus (see //@arms)
 Attributes (`#[..]`), doc comments and ordinary comments are dropped with the signature.
 
@@ -678,6 +679,38 @@ def rule_N4(src, lo, hi, enabled):
     return out
 
 
+def rule_N5(src, lo, hi, enabled):
+    """E.map(|p| BODY).unwrap_or(LIT) -> (match E { Some(p) => BODY, None => LIT })
+    (definitions of Option::map and Option::unwrap_or; LIT must be a literal)"""
+    out = []
+    if "N5" not in enabled:
+        return out
+    toks = code_toks(tokenize(src[lo:hi], lo))
+    n = len(toks)
+    for i, t in enumerate(toks):
+        if t.kind == "ident" and t.text == "map" and i > 0 and toks[i - 1].text == "." and i + 2 < n and toks[i + 1].text == "(" \
+                and toks[i + 2].text == "|":
+            c = match_close(toks, i + 1)
+            if not (c + 3 < n and toks[c + 1].text == "." and toks[c + 2].text == "unwrap_or" and toks[c + 3].text == "("):
+                continue
+            c2 = match_close(toks, c + 3)
+            default = src[toks[c + 3].end:toks[c2].start].strip()
+            if not re.fullmatch(r"[0-9a-zA-Z_]+", default):
+                raise VxError("N5: unwrap_or default is not a literal: %r" % default)
+            p2 = i + 3
+            while toks[p2].text != "|":
+                p2 += 1
+            pat = src[toks[i + 3].start:toks[p2].start].strip()
+            body_end = c - 1
+            if toks[body_end].text == ",":
+                body_end -= 1
+            body = src[toks[p2 + 1].start:toks[body_end].end]
+            rs = _recv_start(toks, i - 1)
+            recv = src[toks[rs].start:toks[i - 1].start].strip()
+            out.append(("N5", toks[rs].start, toks[c2].end, "(match %s { Some(%s) => %s, None => %s })" % (recv, pat, body, default)))
+    return out
+
+
 def rule_A(src, lo, hi, keep_re):
     """Arm focus on the outermost `match` of the function body whose arms are event variants:
     every arm whose pattern does not match keep_re gets the body `{ return vx_other_arm(self) }`."""
@@ -886,7 +919,7 @@ def loop_headers(body):
 # --------------------------------------------------------------------------------------
 # vspec processing
 # --------------------------------------------------------------------------------------
-ALL_RULES = ["D1", "D2", "D3", "D5", "R1", "N1", "N2", "N3", "N4"]
+ALL_RULES = ["D1", "D2", "D3", "D5", "R1", "N1", "N2", "N3", "N4", "N5"]
 KV_RE = re.compile(r'(\w+)=("([^"]*)"|\S+)')
 
 
@@ -895,6 +928,15 @@ def parse_kv(s):
     for m in KV_RE.finditer(s):
         d[m.group(1)] = m.group(3) if m.group(3) is not None else m.group(2)
     return d
+
+
+def _split_map(t):
+    if " => " in t:
+        a, b = t.split(" => ", 1)
+        return a, b
+    if t.rstrip().endswith(" =>"):
+        return t.rstrip()[:-3], ""
+    raise VxError("bad map directive: %r" % t)
 
 
 class Gen:
@@ -1001,7 +1043,7 @@ class Gen:
         text = "\n".join(l for l in text.split("\n") if l.strip())
         for vl, b in block:
             if b.startswith("map "):
-                frm, to = b[4:].split(" => ", 1)
+                frm, to = _split_map(b[4:])
                 new = re.sub(frm, to, text)
                 self.log.append(dict(rule="D4", file=rel, line=line_of(src, s), before=frm, after=to, hits=len(re.findall(frm, text))))
                 text = new
@@ -1029,11 +1071,11 @@ class Gen:
         for vl, b in block:
             bs = b.strip()
             if bs.startswith("map "):
-                frm, to = bs[4:].split(" => ", 1)
+                frm, to = _split_map(bs[4:])
                 maps.append((frm, to.rstrip()))
                 mode = None
             elif bs.startswith("sigmap "):
-                frm, to = bs[7:].split(" => ", 1)
+                frm, to = _split_map(bs[7:])
                 sigmaps.append((frm, to.rstrip()))
                 mode = None
             elif bs.startswith("norule "):
@@ -1105,6 +1147,7 @@ class Gen:
         edits += rule_N2(src, lo, hi, enabled)
         edits += rule_N3(src, lo, hi, enabled)
         edits += rule_N4(src, lo, hi, enabled)
+        edits += rule_N5(src, lo, hi, enabled)
         dropped_arms = []
         if arms:
             a_edits, dropped_arms = rule_A(src, lo, hi, arms)
